@@ -33,6 +33,105 @@ PROPS = {
         technique="Coq proof (div/mod identities, induction over the word list) + correspondence",
         design_ref="DESIGN.md section 4, C04",
     ),
+
+    "C06": dict(
+        coq=["Props.C06_ans"],
+        fams=[("fam_ans", "gen_encode_only", 500, 30000), ("fam_ans", "gen_stack", 200, 10000),
+              ("fam_docvec", "gen_doc", 2, 2)],
+        anchors=["src/stream/stack.rs", "src/stream/queue.rs", "README-rust.md", "tests/readme.rs", "src/lib.rs"],
+        rule="message of >=3 symbols whose export has more words than the state holds (>=1 flush), or a documented example vector",
+        level_text="Coq theorem: for every message and every width/precision the machine-level ANS model exports "
+                   "exactly the words of a reference rANS written in plain unbounded arithmetic (Model/AnsRef.v); "
+                   "README vector re-computed by vm_compute from pinned (cum,p) pairs which the harness re-derives "
+                   "from the real Gaussian models on every run. The implementation's words are compared exactly with "
+                   "the model AND with an independent Python reference.",
+        level_note="RANGE CODER PART PENDING (being built): until then only the rANS half of the property is decided. "
+                   "Trusted: Coq kernel + vm_compute; model tied to the source by sampled correspondence; Gaussian CDF "
+                   "values are pinned constants re-derived from the implementation, not verified.",
+        technique="Coq proof (machine model = arithmetic reference) + exact word-for-word correspondence",
+        design_ref="DESIGN.md section 4, C06",
+    ),
+    "C07": dict(
+        coq=["Props.C07_ans", "Props.C01"],
+        fams=[("fam_ansseek", "gen_seek", 600, 40000)],
+        anchors=["src/stream/stack.rs", "src/stream/queue.rs", "src/backends.rs", "src/lib.rs"],
+        rule="message of >=3 symbols, >=1 seek and >=1 decode after a seek",
+        level_text="Coq theorem: a (position,state) snapshot taken at any symbol boundary, handed to a decoder over "
+                   "the final bulk whatever its previous state, restores the coder exactly as it was (encoding only "
+                   "appends to the bulk); with C01 this gives the decoded symbols; out-of-range positions refused. "
+                   "Correspondence over borrowed, owned and consuming (Vec) seekable decoders.",
+        level_note="RANGE CODER PART PENDING. Reverse<Cursor> decoders are not exercised (position remapping is not "
+                   "documented). Trusted: Coq kernel + vm_compute; sampled correspondence.",
+        technique="Coq proof (prefix stability of the bulk) + correspondence",
+        design_ref="DESIGN.md section 4, C07",
+    ),
+    "C08": dict(
+        coq=["Props.C08_ans"],
+        fams=[("fam_ans", "gen_twin", 600, 40000)],
+        anchors=["src/stream/stack.rs", "src/stream/queue.rs", "src/symbol/mod.rs"],
+        rule="twin history with >=1 inspection and >=1 encode after it",
+        level_text="Coq theorems: opening and dropping the get_compressed / get_binary guards is the identity on "
+                   "every coder, the view equals the export, a refused raw-binary view writes nothing. Twin runs on "
+                   "the implementation (inspected coder vs never-inspected twin) compared result by result.",
+        level_note="RANGE ENCODER AND BIT CODER PARTS PENDING. iter_compressed, num_*, is_empty, clone are pure "
+                   "functions in the model; their effect-freeness in the code is established by the twin runs only.",
+        technique="Coq proof (guard round trip) + twin-run correspondence",
+        design_ref="DESIGN.md section 4, C08",
+    ),
+    "C09": dict(
+        coq=["Props.C09_ans"],
+        fams=[("fam_ans", "gen_impossible", 500, 30000), ("fam_ansb", "gen_bounded", 400, 20000)],
+        anchors=["src/stream/stack.rs", "src/stream/queue.rs", "src/stream/chain.rs", "src/lib.rs"],
+        rule="history with >=1 rejected symbol (or >=1 failed write) followed by >=1 successful operation",
+        level_text="Coq theorems: an out-of-support symbol yields ImpossibleSymbol without touching the coder; with a "
+                   "bounded sink the only outcomes are Ok (= unbounded result), ImpossibleSymbol, BackendFull, the "
+                   "capacity is never exceeded and with room left nothing changes. Correspondence with out-of-support "
+                   "symbols incl. 2^16+i, 2^32+i and a bounded Cursor sink of every capacity.",
+        level_note="MODEL-FAMILY, RANGE, CHAIN AND HUFFMAN PARTS PENDING. Trusted: Coq kernel + vm_compute; sampled "
+                   "correspondence.",
+        technique="Coq proof + correspondence with failure injection",
+        design_ref="DESIGN.md section 4, C09",
+    ),
+    "C10": dict(
+        coq=["Props.C10_ans"],
+        fams=[("fam_ans", "gen_free", 600, 40000)],
+        anchors=["src/stream/stack.rs", "src/stream/queue.rs", "src/stream/chain.rs"],
+        rule="history starting from imported garbage words with >=1 decode",
+        level_text="Coq theorems: ANS decoding of EVERY state returns a symbol of the model's support, its arithmetic "
+                   "cannot overflow the State type, any imported word list yields a valid coder or is refused. "
+                   "Debug-build harness (overflow + unsafe-precondition checks) on garbage streams.",
+        level_note="RANGE DECODER, CHAIN CODER AND LOOKUP/LEAKY MODEL PARTS PENDING. Out-of-bounds reads of compiled "
+                   "code are runtime truth (see C20).",
+        technique="Coq proof (totality, no overflow) + debug-build correspondence on garbage",
+        design_ref="DESIGN.md section 4, C10",
+    ),
+    "C12": dict(
+        coq=["Props.C12_ans"],
+        fams=[("fam_ans", "gen_encode_only", 500, 20000)],
+        anchors=["src/stream/stack.rs", "src/stream/queue.rs", "src/stream/mod.rs"],
+        rule="message of >=10 symbols with the size bound evaluated at >=1 point",
+        level_text="Coq theorem in exact integer form: from the empty coder, (2^WB)^(words-1) * prod(p_i K_i) <= "
+                   "2^(SB-WB) * prod(2^P_i (K_i+1)) with K_i = 2^(SB-WB-P_i), i.e. bits <= SB + sum(P_i - log2 p_i) + "
+                   "sum log2(1+1/K_i); and words <= n + ceil(SB/WB). The same inequality is evaluated with exact "
+                   "integers on the implementation's word counts.",
+        level_note="RANGE CODER ANALOGUE PENDING. The real-number (log2) reading is the stated consequence of the "
+                   "integer inequality, not a separate Coq theorem yet; the docs' 0.1% figure is not claimed.",
+        technique="Coq proof (potential-function induction) + exact-integer oracle on the implementation",
+        design_ref="DESIGN.md section 4, C12",
+    ),
+    "C18": dict(
+        coq=["Props.C18_ans"],
+        fams=[("fam_ans", "gen_encode_only", 300, 10000), ("fam_ans", "gen_free", 300, 10000),
+              ("fam_ans", "gen_binary", 200, 10000)],
+        anchors=["src/stream/stack.rs", "src/stream/queue.rs", "src/symbol/mod.rs", "src/stream/model.rs"],
+        rule="history in which a size query is immediately followed by an export",
+        level_text="Coq theorems: num_words = length of the export, is_empty <=> empty export (on valid coders), "
+                   "num_valid_bits of from_binary data = data size. Sizes compared with exports at every query point "
+                   "on the implementation.",
+        level_note="RANGE CODER, BIT CODER AND MODEL-DIAGNOSTICS PARTS PENDING.",
+        technique="Coq proof + correspondence",
+        design_ref="DESIGN.md section 4, C18",
+    ),
 }
 
 _PENDING = "not claimed yet: the model/theorems for this property are still being built (see DESIGN.md staging)"
